@@ -584,9 +584,10 @@ func genLifecycle(r *Rng, idx int, tier string, step func(op string) string) {
 	//    re-created the missing one by then); the process dies; the storage recovers; restart
 	//  3 the piece writer has stored a piece but has not reported yet when the torrent is stopped / re-verified
 	//    and started again: its result reaches the next run
+	//  4 the storage refuses a piece (write error): the torrent stops with the error; started again it must go on
 	special, specialAt := 0, -1
-	if r.Chance(30) {
-		special, specialAt = r.Range(1, 3), r.Intn(steps)
+	if r.Chance(36) {
+		special, specialAt = r.Range(1, 4), r.Intn(steps)
 	}
 	ndata := 0
 	for i := range l.lens {
@@ -636,6 +637,24 @@ func genLifecycle(r *Rng, idx int, tier string, step func(op string) string) {
 				}
 				do("start")
 				do("diskcheck")
+			}
+		case s == specialAt && special == 4 && !gates["write"]:
+			var live *scriptPeer
+			for _, p := range peers {
+				if !p.closed {
+					live = p
+				}
+			}
+			if st == "Downloading" && live == nil && nextK <= 8 {
+				live = attach()
+			}
+			if status(last) == "Downloading" && live != nil {
+				do("gate kind=failwrite on=1")
+				honestServe(peers, live, 64, step)
+				do("obs")
+				do("gate kind=failwrite on=0")
+				waitStop()
+				do("start")
 			}
 		case s == specialAt && special == 3 && !gates["write"]:
 			var live *scriptPeer
